@@ -195,3 +195,46 @@ Proof.
     rewrite forallb_forall in R7. exact R7. }
   exact (xing_equiv_doc s d (xr_doc s d Hs R1 R2 R3 R4 R5 R6 Hroots) (xr_names d R8) (xr_used d R9) b hi R10 Hfuel En Hhi).
 Qed.
+
+(* the same for the variant without memo guards *)
+Theorem xing_equiv_nomemo_rules s d b hi :
+  xr_schema_ok s ->
+  xv_r_fields_defined s d = true -> xv_r_leaf_selections s d = true -> xv_r_argument_unique s d = true ->
+  xv_r_input_field_unique s d = true -> xv_r_fragment_type_exists s d = true -> xv_r_fragment_on_composite s d = true ->
+  xv_r_root_operation_defined xv_apollo_params s d = true ->
+  xv_r_fragment_name_unique d = true -> xv_r_fragments_used d = true -> xv_r_no_fragment_cycles d = true ->
+  xv_merge_out_of_fuel s d = false ->
+  mxn_document s d = Some (b, hi) -> (hi <= mx_field_depth_limit)%nat ->
+  b = xv_r_fields_merge s d.
+Proof.
+  intros Hs R1 R2 R3 R4 R5 R6 R7 R8 R9 R10 Hfuel En Hhi.
+  assert (Hroots : forall o, In o (xv_ops d) -> xv_is_some (xv_root s (xo_type o)) = true).
+  { unfold xv_r_root_operation_defined in R7. cbn [xv_apollo_params xp_reject_undefined_root_operation negb orb] in R7.
+    rewrite forallb_forall in R7. exact R7. }
+  unfold xv_merge_out_of_fuel in Hfuel. unfold xv_r_fields_merge.
+  destruct (xv_merge_verdict s d) as [v|] eqn:Ev; [|discriminate].
+  exact (xing_equiv_nomemo_doc s d (xr_doc s d Hs R1 R2 R3 R4 R5 R6 Hroots) (xr_names d R8) (xr_used d R9) v R10 Ev b hi En Hhi).
+Qed.
+
+(* goal 1 against the specification's own collection (Valid.v xv_collect on the parsed selections): the fields
+   expand_selections yields for a selection set of the built document are, each seen as the specification sees a
+   field (mxb_proj), exactly the members of the specification's collection *)
+Theorem mx_expand_eq_xv_collect s afrags p sels out fuel L :
+  (forall k f, In (k, f) afrags -> xv_is_some (sch_get_type s (xv_frag_cond f)) = true /\
+                                    Forall (xb_ok s (xv_frag_cond f)) (xv_frag_sels f)) ->
+  Forall (xb_ok s p) sels ->
+  mx_expand (mx_fragments s afrags []) [(p, mx_from_ast s p sels)] = Some out ->
+  xv_collect fuel s afrags p sels = Some L ->
+  forall c, In c L <-> exists f, In f out /\ mxb_proj f = c.
+Proof.
+  intros Hfr Hok Ex Ec c. pose proof (mx_fragments_rel s afrags Hfr) as Hrel.
+  destruct (xb_from_ast_list s p sels Hok) as [T O]. rewrite <- T in Ec.
+  rewrite (xvc_bridge s afrags _ Hrel fuel p _ O) in Ec.
+  destruct (mxc_collect fuel (mx_fragments s afrags []) p (mx_from_ast s p sels)) as [L'|] eqn:Ec'; [|discriminate].
+  cbn [option_map] in Ec. injection Ec as <-. rewrite in_map_iff.
+  assert (HF : Forall2 (fun st L0 => mxc_collect fuel (mx_fragments s afrags []) (fst st) (snd st) = Some L0)
+                 [(p, mx_from_ast s p sels)] [L']) by (constructor; [exact Ec'|constructor]).
+  pose proof (mx_expand_eq_collect _ _ _ Ex fuel [L'] HF) as Hm. cbn [concat] in Hm. split.
+  - intros (f & E & Hf). exists f. split; [|exact E]. apply Hm. rewrite app_nil_r. exact Hf.
+  - intros (f & Hf & E). exists f. split; [exact E|]. apply Hm in Hf. rewrite app_nil_r in Hf. exact Hf.
+Qed.
